@@ -48,7 +48,19 @@ def forward_case(draw, tier="quick"):
                                            draw(gen.finite(-2.0 * out_shape[1], 2.0 * out_shape[1])))
     zero_off = draw(st.booleans())
     offset = (0, 0) if zero_off else (draw(st.integers(-50, 50)), draw(st.integers(-50, 50)))
-    return {"f": f, "alpha_arg": list(alpha_arg) if isinstance(alpha_arg, tuple) else alpha_arg,
+    # argument forms: scalars are broadcast to both axes; real and integer inputs are accepted
+    forms = {"shift_scalar": False, "offset_scalar": False, "dtype": draw(st.sampled_from(["complex", "complex", "float", "int", "list"]))}
+    if not zero_shift and draw(st.sampled_from([False, False, True])):
+        shift = (shift[0], shift[0])
+        forms["shift_scalar"] = True
+    if not zero_off and draw(st.sampled_from([False, False, True])):
+        offset = (offset[0], offset[0])
+        forms["offset_scalar"] = True
+    if forms["dtype"] == "float":
+        f = f.real.copy()
+    elif forms["dtype"] in ("int", "list"):
+        f = np.round(f.real).astype(np.int64)
+    return {"forms": forms, "f": f, "alpha_arg": list(alpha_arg) if isinstance(alpha_arg, tuple) else alpha_arg,
             "alpha": list(alpha), "akind": akind, "out_shape": list(out_shape), "shape_arg": shape_arg_kind,
             "shift": list(shift), "offset": list(offset), "unitary": draw(st.booleans()),
             "out": draw(st.sampled_from(["none", "none", "zeros", "dirty"]))}
@@ -63,13 +75,20 @@ def _call_dft2(case, f=None):
         kw["shape"] = int(case["out_shape"][0])
     alpha = case["alpha_arg"]
     alpha = tuple(alpha) if isinstance(alpha, list) else alpha
-    return dict(f=f, alpha=alpha, shift=tuple(case["shift"]), offset=tuple(case["offset"]),
-                unitary=case["unitary"], **kw)
+    forms = case.get("forms", {})
+    shift = case["shift"][0] if forms.get("shift_scalar") else tuple(case["shift"])
+    offset = case["offset"][0] if forms.get("offset_scalar") else tuple(case["offset"])
+    if forms.get("dtype") == "list":
+        f = np.asarray(f).tolist()
+    return dict(f=f, alpha=alpha, shift=shift, offset=offset, unitary=case["unitary"], **kw)
 
 
 def _tags(case, ctx):
     f = case["f"]
     a = case["alpha"]
+    fm = case.get("forms", {})
+    ctx.tag("input:" + fm.get("dtype", "complex"), "shift_scalar" if fm.get("shift_scalar") else None,
+            "offset_scalar" if fm.get("offset_scalar") else None)
     ctx.tag("aniso_alpha" if a[0] != a[1] else "iso_alpha", "alpha:" + case["akind"],
             "unitary" if case["unitary"] else "non_unitary",
             "shift&offset" if any(case["shift"]) and any(case["offset"]) else None,
